@@ -35,6 +35,37 @@ register('C08',
          'Coq proof (induction over tables, sorting/permutation lemmas) + vm_compute correspondence against the ORM accessors',
          'DESIGN.md §7 C08')
 
+register('C16',
+         'Coq theorems over every version table with positive transaction ids: the back-fill sets each row\'s end to the least '
+         'larger transaction id of the same key and changes nothing else (C16_rows); if the newest rows are open the result '
+         'satisfies the validity chain (C16_chain); a wiped chained table is restored exactly (C16_restores); the tool is '
+         'idempotent with no hypothesis (C16_idempotent). The model mirrors the SELECT/UPDATE loop of update_end_tx_column and '
+         'is compared with the real tool (run once and twice) on random tables every run.',
+         COMMON_NOTE + 'Transaction ids are assumed positive (the tool skips falsy values).',
+         'Coq proof (equational reasoning over list map, min_above characterisation) + vm_compute correspondence against schema.update_end_tx_column',
+         'DESIGN.md §7 C16')
+
+register('C19',
+         'Coq theorems over every version table satisfying the primary key: a row deleted by vacuum is identical (every non-key '
+         'column) to the nearest earlier surviving row of the same entity and everything in between was deleted too; the first '
+         'version of every entity is kept; a version that differs from its immediate predecessor is kept (A,B,A). The model '
+         '(per-entity pass with a last-surviving row) is compared with utils.vacuum (session.deleted and the table after '
+         'commit) on random tables every run.',
+         COMMON_NOTE + 'naturally_equivalent (SQLAlchemy-Utils) is modelled as equality of all non-primary-key columns. The single '
+         'ordered pass over all entities is modelled per entity (the passes are independent per key).',
+         'Coq proof (induction over the sorted version list with a surviving-predecessor invariant) + vm_compute correspondence against utils.vacuum',
+         'DESIGN.md §7 C19')
+
+register('C20',
+         'Coq theorem: the model of the COUNT query equals the length of the versions collection for every table and key (and 0 '
+         'when the key has no rows). That the code computes this count for every key value is established by the '
+         'correspondence check, which drives adversarial key strings (quotes, backslash, percent, colon, newline, non-ASCII, '
+         'empty, long), int and composite keys and a custom table-name format against count_versions and versions.count().',
+         COMMON_NOTE + 'Key values are numbered injectively per case before reaching the model; the tie for this property is '
+         'carried almost entirely by the correspondence (sampling), the theorem itself is small.',
+         'Coq proof (permutation length) + adversarial-key vm_compute correspondence against utils.count_versions',
+         'DESIGN.md §7 C20')
+
 ALL = ['C%02d' % i for i in range(1, 21)]
 
 
